@@ -31,6 +31,7 @@ func init() {
 			ruleMapCopyWriteBack(r, []string{metricPkg, enginePkg}, 2)
 			ruleOpenLog(r) // the lower edge of the first window: since/until as the daemon reads them
 			ruleSampleLabelSet(r)      // a series in the window keeps the labels of its own samples
+			ruleIsInstant(r)
 		},
 	})
 }
